@@ -4,6 +4,7 @@
 `self["k"]` with a constant key a field access with a per-field presence flag, so the real
 `__init__`, getters and setters of aw_core/models.py are executed symbolically (not replaced).
 """
+from pyvc.specrt import *  # noqa: F401,F403
 from pyvc.api import classdef, contract
 
 classdef("aw_core.models.Event",
